@@ -2036,7 +2036,13 @@ class TargetRegistry:
 
     def _get_closest_type(self, obj, type_tree):
         default = None
-        for cur_type, sub_tree in type_tree.items():
+        # real ancestors (nearest first) take precedence over virtual
+        # and duck types, which keep their registration order
+        mro = type(obj).__mro__
+        candidates = sorted([t for t in type_tree if t in mro], key=mro.index)
+        candidates += [t for t in type_tree if t not in mro]
+        for cur_type in candidates:
+            sub_tree = type_tree[cur_type]
             if isinstance(obj, cur_type):
                 sub_type = self._get_closest_type(obj, type_tree=sub_tree)
                 ret = cur_type if sub_type is None else sub_type
@@ -2141,8 +2147,10 @@ class TargetRegistry:
             raise TypeError(f'expected auto_func to be callable, not: {auto_func!r}')
 
         # determine support for any previously known types
-        known_types = set(sum([list(m.keys()) for m
-                               in self._op_type_map.values()], []))
+        # in registration order (not set order), so that the type tree
+        # built below does not depend on the hashes of the types
+        known_types = list(OrderedDict.fromkeys(
+            sum([list(m.keys()) for m in self._op_type_map.values()], [])))
         type_map = self._op_type_map.get(op_name, OrderedDict())
         type_tree = self._op_type_tree.get(op_name, OrderedDict())
         for t in sorted(known_types, key=lambda t: t.__name__):
